@@ -12,6 +12,7 @@ import (
 	"sort"
 	"strconv"
 	"strings"
+	"unicode/utf8"
 
 	"github.com/bfenetworks/bfe/bfe_basic"
 	"github.com/bfenetworks/bfe/bfe_http"
@@ -427,7 +428,26 @@ func c50MissingWhy(decoded string) string {
 	if len(c) > 3500 {
 		return "path-too-long"
 	}
+	if !utf8.ValidString(c) {
+		return "invalid-utf8"
+	}
 	return "plain"
+}
+
+// siblingProbe names the tree file OUTSIDE the product root that exists at
+// clean(root + "/" + raw path + ".gz"/".br") for an offered encoding ("" = none).
+// It is used only to give one known failure shape its own signature.
+func (t *c50Tree) siblingProbe(pr *c50Product, decoded, ae string) string {
+	for _, e := range [][2]string{{"gzip", ".gz"}, {"br", ".br"}} {
+		if !c50Offers(ae, e[0]) {
+			continue
+		}
+		k := path.Clean(pr.RootRel + "/" + decoded + e[1])
+		if _, ok := t.files[k]; ok && !strings.HasPrefix(k, pr.RootRel+"/") {
+			return k
+		}
+	}
+	return ""
 }
 
 // ---- evaluation -------------------------------------------------------------
@@ -487,7 +507,8 @@ func c50Eval(r *vkit.Run, env *modEnv, t *c50Tree, c *c50Case) {
 		decoded = req.HttpRequest.URL.Path
 		own, ok, bad := c50DecodeTarget(c.target())
 		switch {
-		case !ok:
+		case !ok || c.Method == "CONNECT" && !strings.HasPrefix(c.target(), "/"):
+			// asterisk-form, authority-form (CONNECT) and scheme-less targets: RFC 7230 defines no path
 			r.Count("nonstandard_target_form_path_taken_from_reader", 1)
 		case bad:
 			r.Count("invalid_escape_accepted_by_reader_path_taken_from_reader", 1)
@@ -575,18 +596,31 @@ func c50Eval(r *vkit.Run, env *modEnv, t *c50Tree, c *c50Case) {
 			}
 		}
 	}
+	probe := t.siblingProbe(pr, decoded, c.AE)
+	probeViolation := func() {
+		r.Violation("wrong-file:outside-root-sibling-probe", fmt.Sprintf("%s %s (%s, product %s, Accept-Encoding %q) designates the existing file %q; because %q exists OUTSIDE the document root the answer is status %d, Content-Encoding %q, %d body bytes, Content-Length %v: not that file",
+			c.Method, c.Target, c.Route, c.Product, c.AE, ref.key, probe, status, ce, len(body), cl), wit(map[string]interface{}{"outside_sibling": probe}))
+	}
 	// classify a body that is not the designated one
 	foreign := func(sigPrefix string) bool {
 		k, out := t.findMarker(pr, body)
 		if k == "" {
 			return false
 		}
+		if !out && probe != "" && sigPrefix == "wrong-file" && ref.kind == c50KFile {
+			probeViolation()
+			return true
+		}
 		if out {
 			r.Violation("escape:"+shape, fmt.Sprintf("%s %s (%s, product %s): response carries bytes of %q, which is outside the document root %q",
 				c.Method, c.Target, c.Route, c.Product, k, pr.RootRel), wit(map[string]interface{}{"served_file": k}))
 			return true
 		}
-		r.Violation(sigPrefix+":"+shape, fmt.Sprintf("%s %s (%s, product %s): response carries bytes of %q", c.Method, c.Target, c.Route, c.Product, k),
+		sig := sigPrefix + ":" + shape
+		if strings.HasPrefix(sigPrefix, "method:") {
+			sig = sigPrefix
+		}
+		r.Violation(sig, fmt.Sprintf("%s %s (%s, product %s): response carries bytes of %q", c.Method, c.Target, c.Route, c.Product, k),
 			wit(map[string]interface{}{"served_file": k}))
 		return true
 	}
@@ -662,6 +696,10 @@ func c50Eval(r *vkit.Run, env *modEnv, t *c50Tree, c *c50Case) {
 					hit = &ref.allowed[i]
 				}
 			}
+			if hit == nil && probe != "" && ref.kind == c50KFile {
+				probeViolation()
+				return
+			}
 			if hit == nil {
 				for i := range ref.allowed {
 					if ref.allowed[i].enc == ce {
@@ -717,7 +755,13 @@ func c50Eval(r *vkit.Run, env *modEnv, t *c50Tree, c *c50Case) {
 			r.Violation(fmt.Sprintf("existing:status-%d:%s", status, shape), fmt.Sprintf("%s %s designates the existing file %q, answered %d", c.Method, c.Target, ref.key, status), wit(nil))
 			return
 		}
-		r.Count("existing_file_answered_4xx", 1)
+		if probe != "" {
+			// same cause as wrong-file:outside-root-sibling-probe, in a product without default file;
+			// a 4xx for an existing file is not a violation of the statement
+			r.Count("existing_file_answered_4xx_after_outside_sibling_probe", 1)
+		} else {
+			r.Count("existing_file_answered_4xx_other", 1)
+		}
 	case c50KDir:
 		// docs are silent on directories: any refusal is accepted
 		r.Count(fmt.Sprintf("directory_status_%d", status), 1)
@@ -1029,7 +1073,7 @@ func (t *c50Tree) sweep(r *vkit.Run) []*c50Case {
 }
 
 func c50(r *vkit.Run) {
-	r.SetRule("fixed symlink-free tree (54 files: 0 B, 64 KiB+-1, 200 kB, names with space/dots/unicode/backslash/%/?/#/*, 255-byte name, directory named like a file, a directory literally named %2e%2e, .gz/.br siblings) below <base>/root; SENTINEL files outside it (<base>/secret.txt, index.html, a.txt.gz, rootkit/..., root.txt). 4 products in one rule file (root with default index.html; root without default; nested root <base>/root/sub; root written with trailing slash and default sub/deep/index.html), EnableCompress=true, one module instance, rule file loaded through the reload handler. Cases = seed-independent sweep (15 dot-dot spellings x 8 separator spellings x start dir x outside target x product; every file/dir by 5 methods x 4 Accept-Encoding) + seeded cases: intent (existing file, directory, missing, dot-dot to a sentinel, climb to fs root and back by absolute path, absolute fs path, prefix-named sibling, leave-and-reenter, special targets * // /.. empty) -> 0-3 obfuscations (/./, x/.., //, trailing / . space, backslash, NUL, 300-byte and 4 kB segments cancelled by .., >4 kB dot-dot chains, case change, ..;) -> request-target encoding (raw, %2e, %2f, %5c, mixed case hex, all bytes, double encoding %252e, overlong %c0%ae), optional absolute-form / //host prefix / query / fragment. 3/4 go through bfe_http.ReadRequest (lines it refuses are counted, they never reach the module), 1/4 set URL.Path directly (with and without leading slash), because HTTP/2 and SPDY front-ends deliver :path without the HTTP/1 reader. Oracle: in-memory reference, segment-stack clean of the decoded path confined to the root; response = 200 with exactly the designated file's bytes (or its .gz/.br sibling labelled with a Content-Encoding the request offered; negotiation is undocumented so both are accepted) and one Content-Length equal to the body, or the default file under the same rules for directory/missing, or 4xx; missing + no default file: exactly 404; directory + no default file: any non-2xx (docs silent; module answers 500); methods other than GET/HEAD: any non-2xx without file bytes (docs silent on the code; module answers 405); HEAD: empty body, Content-Length of the designated file; no sentinel marker in any header or body. Content-Type, Last-Modified and Range are not judged. Non-trivial = reached the module handler and (designates an existing file or the path has a hostile element: .., //, /./, backslash, NUL, %-escape, no leading slash, trailing / . space, over-long segment); distinct = (product, method, Accept-Encoding, route, target bytes)")
+	r.SetRule("fixed symlink-free tree (46 files below the root, 11 sentinels outside: 0 B, 64 KiB+-1, 200 kB, names with space/dots/unicode/backslash/%/?/#/*, 255-byte name, directory named like a file, a directory literally named %2e%2e, .gz/.br siblings) below <base>/root; SENTINEL files outside it (<base>/secret.txt, index.html, a.txt.gz, rootkit/..., root.txt). 4 products in one rule file (root with default index.html; root without default; nested root <base>/root/sub; root written with trailing slash and default sub/deep/index.html), EnableCompress=true, one module instance, rule file loaded through the reload handler. Cases = seed-independent sweep (15 dot-dot spellings x 8 separator spellings x start dir x outside target x product; every file/dir by 5 methods x 4 Accept-Encoding) + seeded cases: intent (existing file, directory, missing, dot-dot to a sentinel, climb to fs root and back by absolute path, absolute fs path, prefix-named sibling, leave-and-reenter, special targets * // /.. empty) -> 0-3 obfuscations (/./, x/.., //, trailing / . space, backslash, NUL, 300-byte and 4 kB segments cancelled by .., >4 kB dot-dot chains, case change, ..;) -> request-target encoding (raw, %2e, %2f, %5c, mixed case hex, all bytes, double encoding %252e, overlong %c0%ae), optional absolute-form / //host prefix / query / fragment. 3/4 go through bfe_http.ReadRequest (lines it refuses are counted, they never reach the module), 1/4 set URL.Path directly (with and without leading slash), because HTTP/2 and SPDY front-ends deliver :path without the HTTP/1 reader. Oracle: in-memory reference, segment-stack clean of the decoded path confined to the root; response = 200 with exactly the designated file's bytes (or its .gz/.br sibling labelled with a Content-Encoding the request offered; negotiation is undocumented so both are accepted) and one Content-Length equal to the body, or the default file under the same rules for directory/missing, or 4xx; missing + no default file: exactly 404; directory + no default file: any non-2xx (docs silent; module answers 500); methods other than GET/HEAD: any non-2xx without file bytes (docs silent on the code; module answers 405); HEAD: empty body, Content-Length of the designated file; no sentinel marker in any header or body. Content-Type, Last-Modified and Range are not judged. Non-trivial = reached the module handler and (designates an existing file or the path has a hostile element: .., //, /./, backslash, NUL, %-escape, no leading slash, trailing / . space, over-long segment); distinct = (product, method, Accept-Encoding, route, target bytes)")
 	r.Assume("bfe_http.ReadRequest + net/url deliver the singly percent-decoded path (cross-checked per case against an own decoder for origin-form and absolute-form targets; other forms use the reader's path)")
 	r.Assume("the scratch file system is a case-sensitive POSIX file system with NAME_MAX 255 and no symlinks in the tree; the reference models the tree in memory and never reads the disk")
 	r.Assume("rule files are trusted configuration: a default file outside the root is not tested")
@@ -1066,6 +1110,7 @@ func c50(r *vkit.Run) {
 			r.Inconclusive(err.Error())
 			return
 		}
+		w.Case.Target = c50Quote(w.Case.target(), 300)
 		c50Eval(r, env, t, &w.Case)
 		r.SetMinDistinct(0)
 		return
